@@ -1049,7 +1049,7 @@ def run(ctx, tier):
     return dict(
         results=results, stats=dict(ctx.stats),
         explanation=(
-            'Equality of results across the configuration product is a run-time comparison and is NOT decided. Decided: (block-extent) buffered block lengths are the request or whole pages; (complete-writes) examined write counts sit in a loop; (grow g) the growth decision looks at the mapped length. (results-option-free) no crate error outside open / header selection / strict check is control-dependent on the page size or a flag; (open-refusals) refusal sites of open do not grow; (run-length) page runs are overflow + 1; (align-guard) the crate views bytes at id*pagesize as Page '
+            'Equality of results across the configuration product is a run-time comparison and is NOT decided. Decided: (pagesize-limits) no page size compared with a constant outside the builder; (check-refusals) the built-in check refuses at no more sites than pinned. (block-extent) buffered block lengths are the request or whole pages; (complete-writes) examined write counts sit in a loop; (grow g) the growth decision looks at the mapped length. (results-option-free) no crate error outside open / header selection / strict check is control-dependent on the page size or a flag; (open-refusals) refusal sites of open do not grow; (run-length) page runs are overflow + 1; (align-guard) the crate views bytes at id*pagesize as Page '
             '(counted), therefore every public store of a caller-supplied page size is dominated by a divisibility test against the alignment of Page whose failing edge does not return '
             '("every value the builder accepts must work or be refused cleanly"); (O6) the strict-mode check runs after all data writes, growth and remap and before the header write, '
             'only under the strict_mode flag; (grow) the growth decision compares the file length with num_pages*pagesize after the final high-water mark is known, the new size derives '
